@@ -37,6 +37,12 @@ PROP_READ = {
 }
 
 
+# The description and colour of a collection are served under a calendar- or an
+# addressbook-specific property name depending on the (possibly guessed) kind of the
+# collection; the abstract state knows them by one neutral name each.
+NEUTRAL = {"caldesc": "desc", "abdesc": "desc", "calcolor": "color", "abcolor": "color"}
+
+
 class DavSession:
     def __init__(self, frontend="wsgi", prefix="/", backend="tree", index_threshold=None,
                  audit_git=True, max_sync_tokens=4):
@@ -235,7 +241,7 @@ class DavSession:
                         for el in pr:
                             st[el.tag] = code
                 for p, v in props:
-                    mprops.append({"p": p, "v": self.V(v), "pst": st.get(gamma.PROP_TAGS[p]) or 0})
+                    mprops.append({"p": NEUTRAL.get(p, p), "v": self.V(v), "pst": st.get(gamma.PROP_TAGS[p]) or 0})
             except ET.ParseError:
                 pass
         ev = {"op": "Mk", "c": c, "kind": kind, "how": how, "mprops": mprops}
@@ -263,7 +269,7 @@ class DavSession:
                         pst = t[0]
             except ValueError:
                 pass
-        ev = {"op": "Proppatch", "c": c, "p": p, "set": value is not None,
+        ev = {"op": "Proppatch", "c": c, "p": NEUTRAL.get(p, p), "xp": p, "set": value is not None,
               "v": self.V(value) if value is not None else 0, "pst": pst or 0}
         return self._record(ev, resp, {"m": "PROPPATCH", "path": path, "p": p, "value": value})
 
@@ -477,7 +483,7 @@ class DavSession:
         for p, t in PROP_READ.items():
             v = me.text(t)
             if v:        # an empty element is how the server shows an unset text property
-                props[p] = self.V(v)
+                props[NEUTRAL.get(p, p)] = self.V(v)
         # members: every candidate name is fetched
         cands = sorted(set(listing) | self.names[c])
         self.names[c].update(listing)
